@@ -54,5 +54,14 @@ theorem delegate_queues (del : Acct) (val : AVal) (d : Denom) (amt : Int) (w : W
   | ok u => exact this
   | error e => cases h
 
+/-- "unbonded or jailed validators are neither counted nor adjusted": a validator that x/staking does not report as bonded
+    when the rebalancing starts keeps its whole x/staking record (tokens, shares, the module's delegation) through a
+    successful `RebalanceBondTokenWeights`, whatever the assets, weights and stakes: the loop delegates to / unbonds from
+    the validators whose snapshot says bonded only (proof: AllianceProofs/RebalanceFrame) -/
+theorem rebalance_never_adjusts_a_validator_that_is_not_bonded (assets : List Asset) (u : ValId) (w w' : World)
+    (hu : ∀ sv, getSVal w u = some sv → sv.isBonded = false)
+    (h : rebalanceBondTokenWeights assets w = (.ok (), w')) : getSVal w' u = getSVal w u :=
+  rebalance_leaves_unbonded_alone assets u w w' hu h
+
 end C10
 end Alliance
